@@ -80,6 +80,11 @@ pub trait RangeNumber: FromStr + PartialOrd + Copy + MaybeToTokens {
 
     fn range_end_bound(self) -> Option<Bound<Self>>;
 
+    /// `false` for values that can't be used as a range bound (NaN and infinities).
+    fn is_valid_bound(self) -> bool {
+        true
+    }
+
     fn from_u64(v: u64) -> Option<Self>;
     fn from_i64(v: i64) -> Option<Self>;
     fn from_f64(v: f64) -> Option<Self>;
@@ -171,10 +176,13 @@ impl<T: RangeNumber> Range<T> {
 
     pub fn new(s: &str) -> Result<Self> {
         let parse = |s: &str| {
-            s.parse::<T>().map_err(|_| Error::RangeParse {
-                range: s.to_string(),
-                range_type: T::TYPE,
-            })
+            s.parse::<T>()
+                .ok()
+                .filter(|v| v.is_valid_bound())
+                .ok_or_else(|| Error::RangeParse {
+                    range: s.to_string(),
+                    range_type: T::TYPE,
+                })
         };
         let s = s.trim();
         if matches!(s, "_" | "..") {
@@ -1135,6 +1143,10 @@ mod range_number_impl {
                         Some(Bound::Excluded(self))
                     }
 
+                    fn is_valid_bound(self) -> bool {
+                        self.is_finite()
+                    }
+
                     fn from_i64(v: i64) -> Option<Self> {
                         Some(v as $num_type)
                     }
@@ -1144,7 +1156,7 @@ mod range_number_impl {
                     }
 
                     fn from_f64(v: f64) -> Option<Self> {
-                        Some(v as $num_type)
+                        Some(v as $num_type).filter(|v| v.is_finite())
                     }
                 }
 
